@@ -49,6 +49,7 @@ type Contract struct {
 	Exits       *Clause // "exits when e"
 	MayPanic    bool    // panic/exit behaviour unspecified
 	NoReturn    bool
+	Keeps       []string
 	Dispatch    bool
 	IgnoreDefer bool
 	Loops       map[int]*LoopSpec
@@ -118,6 +119,15 @@ func ParseContractFile(path, pkgPath string) ([]*Contract, error) {
 		lineNo := i + 1
 		kw, rest := splitWord(body)
 		switch kw {
+		case "invariant":
+			// package invariant: assumed at every function entry and after every call, checked at every return
+			cl, err := parseClause(path, lineNo, rest)
+			if err != nil {
+				return nil, err
+			}
+			out = append(out, &Contract{Name: "$invariant", PkgPath: pkgPath, Requires: []*Clause{cl}, File: path, Line: lineNo})
+			cur = nil
+			continue
 		case "func", "ext":
 			cur = &Contract{Name: rest, PkgPath: pkgPath, External: kw == "ext", Loops: map[int]*LoopSpec{}, File: path, Line: lineNo}
 			if kw == "ext" {
@@ -171,6 +181,11 @@ func ParseContractFile(path, pkgPath string) ([]*Contract, error) {
 				return nil, fmt.Errorf("%s:%d: %v", path, lineNo, err)
 			}
 			cur.Effects = append(cur.Effects, &Effect{Target: strings.TrimSpace(parts[0]), Src: rest, Expr: e})
+		case "keeps":
+			// with "assigns everything": these struct fields of objects that exist at call time are unchanged
+			for _, it := range splitTop(rest) {
+				cur.Keeps = append(cur.Keeps, strings.TrimSpace(it))
+			}
 		case "dispatch":
 			// interface method calls in this function are resolved to in-package implementers under contract
 			cur.Dispatch = true
